@@ -161,6 +161,12 @@ def finish(prop, tier, seed, results, known, wall, verbose):
                 known_hits.append(o)
             elif o['status'] == 'failed':
                 viol.append(o)
+            elif o.get('model') and _confirmed_natively(prop, o):
+                # the solver could not decide the full VC but proposed a candidate input (quantified hypotheses
+                # dropped); the candidate reproduces on the real code: a genuine failing input
+                o = dict(o)
+                o['detail'] = 'candidate counterexample confirmed by native replay (%s)' % o['detail']
+                viol.append(o)
             elif o['name'] in baseline.get(prop, ()) :
                 # an obligation that is discharged on the pinned tree (contracts/baseline_obligations.json) is no
                 # longer discharged: reported as a violation with the solver's reason (the guidance's minimum
@@ -254,6 +260,21 @@ def finish(prop, tier, seed, results, known, wall, verbose):
     print('%s: %d obligations, %d discharged, %d violations, %d undecided, %.1fs' % (
         prop, n_obl, n_dis, len(viol), len(undecided), wall))
     return code
+
+
+_native_cache = {}
+
+
+def _confirmed_natively(prop, o):
+    if o['name'] in _native_cache:
+        return _native_cache[o['name']]
+    from engine import replay
+    try:
+        path, rep = replay.write_replay(prop, o)
+    except Exception:
+        rep = False
+    _native_cache[o['name']] = rep
+    return rep
 
 
 def trusted_contracts(prop):
